@@ -1913,8 +1913,8 @@ func (f *fragment) mergeBlock(id int, data []pairSet) (sets, clears []pairSet, e
 	sets = make([]pairSet, len(data)+1)
 	clears = make([]pairSet, len(data)+1)
 
-	// Limit upper row/column pair.
-	maxRowID := uint64(id+1) * HashBlockSize
+	// Limit upper row/column pair: the last row of this block (the limit is inclusive).
+	maxRowID := uint64(id+1)*HashBlockSize - 1
 	maxColumnID := uint64(ShardWidth)
 
 	// Create buffered iterator for local block.
